@@ -110,6 +110,20 @@ fn textual(m: &MMappings) -> bool {
 		&& c.methods.iter().all(|me| desc_ok(&me.desc) && names_textual(&me.names, valid_method)
 			&& me.params.iter().all(|p| names_textual(&p.names, unq))))
 }
+/// what the checked constructors of duke's name types guarantee (a tree that fails this can only be built with
+/// `from_inner_unchecked`): every name is valid for its type.  Nothing about TAB / LF / CR / surrogates.
+fn typed(m: &MMappings) -> bool {
+	let row = |r: &NamesRow, valid: fn(&[u32]) -> bool| r.iter().all(|o| o.as_ref().map_or(true, |s| valid(s)));
+	m.classes.iter().all(|c| row(&c.names, valid_class)
+		&& c.fields.iter().all(|f| row(&f.names, unq))
+		&& c.methods.iter().all(|me| row(&me.names, valid_method) && me.params.iter().all(|p| row(&p.names, unq))))
+}
+/// the same set with every unpaired surrogate of a name or descriptor replaced by U+FFFD (what a lossy conversion writes)
+fn lossy_twin(m: &MMappings) -> MMappings {
+	let mut t = m.clone();
+	for (_, s) in cells_mut(&mut t) { for c in s.iter_mut() { if !is_scalar(*c) { *c = 0xFFFD; } } }
+	t
+}
 fn distinct<T: PartialEq>(v: &[T]) -> bool { (0..v.len()).all(|i| (i + 1..v.len()).all(|j| v[i] != v[j])) }
 fn wf(m: &MMappings) -> bool {
 	let n = m.ns.len();
@@ -268,16 +282,35 @@ fn through(r: &mut Report, rng: &mut Rng, m: &MMappings, stream: &str, orders: u
 		Err(e) => { r.count(&format!("{stream}:not-constructible")); if hyp { r.violation(format!("a well-formed mapping set cannot be built as a quill tree: {e:#}"), replay("construction failed", Some(m), None, "")); } return; }
 	};
 	let rr: RRes = match &w { WRes::Ok(t) => impl_read(n, t), _ => Ok(None) };
-	r.case(stream, format!("CWriteRead {} {} {} {}", h_mappings(m), gbool(hyp), g_wres(&w), g_rres(&rr)));
+	r.case(stream, format!("CWriteRead {} {} {} {} {}", h_mappings(m), gbool(hyp), gbool(wf(m) && typed(m)), g_wres(&w), g_rres(&rr)));
 	let ok_rt = matches!(&rr, Ok(Some((m2, d))) if d.is_empty() && m2.equiv(m));
 	r.eval(&g_mappings(&m.canon()), m.size() > 0 && ok_rt);
 	r.count(&format!("{stream}:n={n}"));
 	r.count(&format!("{stream}:size={}", match m.size() { 0 => "0", 1..=5 => "1-5", 6..=20 => "6-20", 21..=60 => "21-60", _ => "61+" }));
 	r.count(&format!("{stream}:write={}", match &w { WRes::Ok(_) => "text", WRes::Err => "Err", WRes::Panic => "panic" }));
 	r.count(&format!("{stream}:roundtrip={}", if ok_rt { "ok" } else { "no" }));
-	if !hyp { return; }
 	// ---- the property, on the implementation alone ----
-	let text = match &w { WRes::Ok(t) => t.clone(), other => { r.violation(format!("write_string of a well-formed textual mapping set failed: {other:?}"), replay("write failed", Some(m), None, "")); return; } };
+	// Judged: every set the checked API can build (well-formed, every name valid for its type) - also those outside
+	// `textual` (TAB / LF / CR / unpaired surrogates in a name, descriptor or namespace).  Such a set must be REFUSED
+	// by write (Err, or the panic of write_fmt on a Display error) or be written as a text that reads back to it;
+	// inside the hypotheses a refusal is a violation too.
+	if !(wf(m) && typed(m)) { return; }
+	r.count(&format!("judged:{}", if hyp { "inside-textual" } else { "outside-textual" }));
+	let text = match &w {
+		WRes::Ok(t) => t.clone(),
+		other if hyp => { r.violation(format!("write_string of a well-formed textual mapping set failed: {other:?}"), replay("write failed", Some(m), None, "")); return; }
+		other => { r.count(&format!("judged:outside-textual:refused={}", if *other == WRes::Err { "Err" } else { "panic" })); return; }
+	};
+	if !hyp {
+		r.count("judged:outside-textual:written");
+		// two sets that differ only in an unpaired surrogate must not be written as the same text
+		let twin = lossy_twin(m);
+		if &twin != m {
+			if let Ok(WRes::Ok(t2)) = impl_write(&twin) {
+				if t2 == text { r.violation("two different mapping sets are written as the same text (an unpaired surrogate is written as U+FFFD)".into(), replay("write(M) = write(M') for M' = M with every unpaired surrogate replaced by U+FFFD", Some(m), Some(&text), &format!("the other set: {twin:?}\n"))); return; }
+			}
+		}
+	}
 	match &rr {
 		Err(p) => { r.violation(format!("read panicked on written text: {p}"), replay("read(write(M)) panicked", Some(m), Some(&text), "")); return; }
 		Ok(None) => { r.violation("read(write(M)) is an error".into(), replay("read(write(M)) = Err", Some(m), Some(&text), "")); return; }
@@ -562,6 +595,59 @@ pub fn run(ctx: &Ctx) -> anyhow::Result<Report> {
 		}
 	}
 
+	// 2b. round 5: EVERY cell position (namespace, class / field / method / parameter name in each column, both
+	// descriptors) x every character that the line format cannot carry, at the start, in the middle and at the end:
+	// judged by the oracle (refused, or read back as written) and compared with the model
+	{
+		let base = |n: usize| -> MMappings {
+			let row = |a: &str, b: &str| -> NamesRow { let mut v = vec![Some(cps_str(a)), Some(cps_str(b))]; for k in 2..n { v.push(if k == 2 { None } else { Some(cps_str("z")) }); } v };
+			MMappings { ns: (0..n).map(|k| cps_str(&format!("ns{k}"))).collect(), doc: None, classes: vec![MClass { names: row("pk/A", "pk/B"), doc: Some(cps_str("doc")),
+				fields: vec![MField { desc: cps_str("Lpk/A;"), names: row("f", "g"), doc: None }],
+				methods: vec![MMeth { desc: cps_str("(Lpk/A;)V"), names: row("m", "n"), doc: None, params: vec![MParam { index: 1, names: row("p", "q"), doc: Some(cps_str("pdoc")) }] }] }] }
+		};
+		let damages: [(&str, u32); 12] = [("tab", 9), ("lf", 10), ("cr", 13), ("high-surrogate", 0xD800), ("low-surrogate", 0xDFFF), ("low-surrogate-first", 0xDC00),
+			("replacement-char", 0xFFFD), ("nul", 0), ("nel", 0x85), ("line-separator", 0x2028), ("backslash", 92), ("vt", 11)];
+		for n in [2usize, 3] {
+			let count = cells_mut(&mut base(n)).len();
+			for k in 0..count { for (dn, dc) in damages { for pos in 0..3 {
+				let mut m = base(n);
+				let kind = { let mut cells = cells_mut(&mut m); let (kind, s) = &mut cells[k]; let at = match pos { 0 => 0, 1 => s.len() / 2, _ => s.len() }; s.insert(at, dc); *kind };
+				if kind == "ns" && !is_scalar(dc) { continue; } // namespaces are Rust `String`s
+				r.count(&format!("cell-matrix:{kind}:{dn}"));
+				through(&mut r, &mut rng, &m, "cell-matrix", 0, &mut tally);
+			} } }
+		}
+		// pairs that differ only in one unpaired surrogate vs U+FFFD / another surrogate, in a name and in a descriptor
+		for (a, b) in [(0xD800u32, 0xFFFDu32), (0xD800, 0xDFFF), (0xDC00, 0xFFFD)] {
+			for k in 0..cells_mut(&mut base(2)).len() {
+				let (mut m1, mut m2) = (base(2), base(2));
+				if cells_mut(&mut base(2))[k].0 == "ns" { continue; }
+				{ let mut c = cells_mut(&mut m1); let l = c[k].1.len(); c[k].1.insert(l, a); }
+				{ let mut c = cells_mut(&mut m2); let l = c[k].1.len(); c[k].1.insert(l, b); }
+				if let (Ok(WRes::Ok(t1)), Ok(WRes::Ok(t2))) = (impl_write(&m1), impl_write(&m2)) {
+					if t1 == t2 { r.violation("two different mapping sets are written as the same text".into(), replay("write(M) = write(M') although M and M' differ in one character of one name / descriptor", Some(&m1), Some(&t1), &format!("the other set: {m2:?}\n"))); }
+				}
+				r.count("cell-matrix:near-equal-pairs");
+			}
+		}
+	}
+
+	// 2c. round 5: the same damage in LARGE sets (64, 65, 130 classes; the damaged cell in the first, a middle and the last
+	// class in insertion order) - a check that is skipped or cut short beyond some size must not go unnoticed
+	for (count, at) in [(64usize, 0usize), (64, 63), (65, 64), (65, 31), (130, 129), (130, 0)] {
+		for (dn, dc) in [("tab", 9u32), ("lf", 10), ("cr-end", 13), ("surrogate", 0xD800)] {
+			let mut m = MMappings { ns: vec![cps_str("a"), cps_str("b")], doc: None, classes: vec![] };
+			for c in 0..count {
+				m.classes.push(MClass { names: vec![Some(cps_str(&format!("p/C{c}"))), Some(cps_str(&format!("q/D{c}")))], doc: None,
+					fields: vec![MField { desc: cps_str("I"), names: vec![Some(cps_str("f")), None], doc: None }],
+					methods: vec![MMeth { desc: cps_str("()V"), names: vec![Some(cps_str("m")), Some(cps_str("n"))], doc: None, params: vec![MParam { index: 0, names: vec![None, Some(cps_str("p"))], doc: None }] }] });
+			}
+			let which = (count + at) % 4;
+			{ let c = &mut m.classes[at]; let s: &mut S = match which { 0 => c.names[1].as_mut().unwrap(), 1 => &mut c.fields[0].desc, 2 => c.methods[0].names[1].as_mut().unwrap(), _ => c.methods[0].params[0].names[1].as_mut().unwrap() }; s.push(dc); }
+			r.count(&format!("large-damaged:{count}:{dn}"));
+			through(&mut r, &mut rng, &m, "large-damaged", 0, &mut tally);
+		}
+	}
 	// 1. inside the hypotheses
 	let mut texts: Vec<(usize, String)> = vec![];
 	for i in 0..n_valid {
@@ -588,7 +674,7 @@ pub fn run(ctx: &Ctx) -> anyhow::Result<Report> {
 			let (kind, ci, cj) = (rng.below(3), rng.below(m.classes.len()), rng.below(m.classes.len()));
 			if let Ok((seen, w, rr)) = with_n!(n, damaged_n, &m, kind, ci, cj) {
 				r.count(&format!("violate-wf:{}:read={}", ["no-first-class-name", "duplicate-class-info", "no-first-member-name"][kind], match &rr { Ok(Some(_)) => "Ok", _ => "Err" }));
-				r.case("violate-wf", format!("CWriteRead {} {} {} {}", h_mappings(&seen), gbool(wf(&seen) && textual(&seen)), g_wres(&w), g_rres(&rr)));
+				r.case("violate-wf", format!("CWriteRead {} {} {} {} {}", h_mappings(&seen), gbool(wf(&seen) && textual(&seen)), gbool(wf(&seen) && typed(&seen)), g_wres(&w), g_rres(&rr)));
 				r.eval(&g_mappings(&seen), false);
 			}
 		}
